@@ -570,6 +570,17 @@ func (db *DB) Scan(dest interface{}) (tx *DB) {
 		} else {
 			tx.RowsAffected = 0
 			tx.AddError(rows.Err())
+			// no row: a slice or array that was read into before does not keep its old elements (as with Find)
+			if rv := reflect.Indirect(reflect.ValueOf(dest)); rv.IsValid() && rv.CanSet() && tx.Error == nil {
+				switch rv.Kind() {
+				case reflect.Slice:
+					if rv.Len() > 0 {
+						rv.Set(reflect.MakeSlice(rv.Type(), 0, 0))
+					}
+				case reflect.Array:
+					rv.Set(reflect.Zero(rv.Type()))
+				}
+			}
 		}
 		tx.AddError(rows.Close())
 	}
